@@ -16,6 +16,9 @@ package message
 
 import (
 	"bytes"
+	encoding "encoding/binary"
+	"errors"
+	"io"
 	"sort"
 	"time"
 
@@ -100,11 +103,26 @@ func DecodeMessage(buf []byte) (out Message, err error) {
 
 	// We need to allocate, given that the unmarshal is now no-copy. By using 'nil' as destination
 	// we make sure that the underlying buffer is calculated based on the decoded length.
-	if buf, err = snappy.Decode(nil, buf); err == nil {
+	if buf, err = decompress(buf); err == nil {
 		err = binary.Unmarshal(buf, &out)
 	}
 
 	return
+}
+
+// errInvalidSize is returned when a message or a frame declares a size it can not possibly have.
+var errInvalidSize = errors.New("message: the declared size is not valid")
+
+// decompress decodes the compressed buffer, making sure the size which the (untrusted) buffer
+// declares is something a buffer of this length can actually decompress to.
+func decompress(buf []byte) ([]byte, error) {
+	if n, err := snappy.DecodedLen(buf); err != nil {
+		return nil, err
+	} else if n > 32*len(buf)+1024 {
+		return nil, errInvalidSize
+	}
+
+	return snappy.Decode(nil, buf)
 }
 
 // ------------------------------------------------------------------------------------
@@ -170,7 +188,14 @@ func DecodeFrame(buf []byte) (out Frame, err error) {
 
 	// We need to allocate, given that the unmarshal is now no-copy. By using 'nil' as destination
 	// we make sure that the underlying buffer is calculated based on the decoded length.
-	if buf, err = snappy.Decode(nil, buf); err == nil {
+	if buf, err = decompress(buf); err == nil {
+
+		// Each message takes several bytes, a frame which declares more messages than
+		// the buffer has bytes ends prematurely (and must not be allocated upfront).
+		if count, n := encoding.Uvarint(buf); n <= 0 || count > uint64(len(buf)) {
+			return nil, io.EOF
+		}
+
 		err = binary.Unmarshal(buf, &out)
 	}
 	return
